@@ -37,7 +37,7 @@ TRUSTED = ["Model/C11_Model.v is hand-written; tied to boltons.setutils.IndexedS
            "the source each run; C11_source_real_index / C11_source_apparent_index prove them equal to the model's loops)",
            "harness/translators/c11_cull.py (Gen/C11_Cull.v: _cull regenerated from the source each run - branch order, "
            "conditions, constants, both right-trim loops - and _add_dead; C11_source_cull / C11_source_add_dead prove them equal to the model)",
-           "harness/translators/c11_ops.py (Gen/C11_Ops.v: remove, pop, add, discard, clear, reverse, sort regenerated from the source each run, calling the "
+           "harness/translators/c11_ops.py (Gen/C11_Ops.v: remove, pop, add, discard, clear, reverse, sort, index, __getitem__(int), the predicates and the whole set algebra regenerated from the source each run, calling the "
            "regenerated _get_real_index/_add_dead/_cull; C11_source_remove, _pop, _add, _discard, _clear, _reverse, _sort prove them equal to the model)"]
 
 DG_MOD = 2305843009213693951
